@@ -90,10 +90,37 @@ Theorem C11_delete_block : forall compat f id,
 Proof. exact f_delete_link. Qed.
 Print Assumptions C11_delete_block.
 
+(* NifFile::DeleteShape as repaired (the data block is deleted only when the shape is its only
+   referrer, then the shape): when only the shape caches a pointer to its data block and nobody
+   caches a pointer to the shape, deleting the data block and then the shape never faults and ends
+   in a model that satisfies the ownership invariant again. *)
+Theorem C11_delete_shape : forall compat f si id bs x,
+  Inv (fh f) -> LinkInv compat f ->
+  vget (blocks (fh f)) si = Some bs -> vget (blocks (fh f)) id = Some x -> uid bs <> uid x ->
+  (forall b o, In b (blocks (fh f)) -> uid b <> uid bs -> acached (heap f (uid b)) <> Some (o, uid x)) ->
+  (forall b o, In b (blocks (fh f)) -> uid b <> uid bs -> acached (heap f (uid b)) <> Some (o, uid bs)) ->
+  exists f1, f_delete f id = Ok f1 /\
+    exists si', (exists b', vget (blocks (fh f1)) si' = Some b' /\ uid b' = uid bs) /\
+    exists f2, f_delete f1 si' = Ok f2 /\ LinkInv compat f2 /\ Inv (fh f2).
+Proof. exact delete_shape_link. Qed.
+Print Assumptions C11_delete_shape.
+
+(* its guard GetBlockRefCount(data, false) == 1 gives the first hypothesis: when the shape is the only
+   block referencing the data block, no other shape caches a pointer to it (a shared data block is
+   kept, so the shapes sharing it keep valid pointers) *)
+Theorem C11_sole_referrer_sole_cacher : forall compat f si id bs x,
+  Inv (fh f) -> LinkInv compat f ->
+  vget (blocks (fh f)) si = Some bs -> vget (blocks (fh f)) id = Some x ->
+  In id (crefs bs) -> ref_count (fh f) id false = 1 ->
+  forall b o, In b (blocks (fh f)) -> uid b <> uid bs -> acached (heap f (uid b)) <> Some (o, uid x).
+Proof. exact sole_referrer_sole_cacher. Qed.
+Print Assumptions C11_sole_referrer_sole_cacher.
+
 (* The side condition of C11_delete_block is necessary. DeleteBlock of a geometry data block whose
    shape survives empties the data reference but not the raw pointer: the invariant is lost, and a
    copy of that model holds a pointer tagged with the SOURCE that designates an object neither
-   model owns (freed memory). Replayed on the implementation: heap-use-after-free (see evidence). *)
+   model owns (freed memory). Replayed on the implementation through NiHeader::DeleteBlock:
+   heap-use-after-free (known finding C11-dangling-geom-cache). *)
 Theorem C11_delete_data_breaks_link_refuted :
   exists f id f', Inv (fh f) /\ LinkInv all_compat f /\ id < vlen (blocks (fh f)) /\
     f_delete f id = Ok f' /\ ~ LinkInv all_compat f' /\
